@@ -130,3 +130,70 @@ func VerifC06_WRRShares() {
 	}
 	verif.Cover("end")
 }
+
+// VerifC06_WRRLag: the weighted round-robin balancer over three hosts with
+// weights from {1,2,4}, any health pattern with at least two healthy hosts,
+// started anywhere in its cycle: in every window of consecutive picks the
+// counts of two healthy hosts i, j satisfy |n_i/w_i - n_j/w_j| <= 1/w_i + 1/w_j
+// (checked in integers), and no unhealthy host is ever picked.
+func VerifC06_WRRLag() {
+	verif.Replace("math/rand.NewSource", func(int64) rand.Source { return zzAnySource{} })
+	n := 3
+	var hs []types.Host
+	total, healthy := 0, 0
+	for i := 0; i < n; i++ {
+		w := []uint32{1, 2, 4}[verif.Choose("weight", 3)]
+		ok := verif.Choose("healthy", 2) == 1
+		if ok {
+			healthy++
+		}
+		hs = append(hs, &zzLBHost{name: zzHostNames[i], healthy: ok, weight: w})
+		total += int(w)
+	}
+	verif.Assume(healthy >= 2)
+	lb := newWRRLoadBalancer(nil, NewHostSet(hs)).(*WRRLoadBalancer)
+	lb.rrLB.(*roundRobinLoadBalancer).rrIndex = uint32(verif.Choose("rr_start", 3))
+	ctx := &zzLBCtx{ctx: context.Background()}
+	K := 2 * total
+	picks := make([]int, K)
+	for k := 0; k < K; k++ {
+		h := lb.ChooseHost(ctx)
+		picks[k] = -1
+		for i := range hs {
+			if hs[i] == h {
+				picks[k] = i
+			}
+		}
+		verif.Assert(picks[k] >= 0 && hs[picks[k]].Health(), "weighted round-robin picked no host or an unhealthy one although healthy hosts exist")
+		if picks[k] < 0 {
+			return
+		}
+	}
+	okLag := true
+	for a := 0; a < K && okLag; a++ {
+		cnt := make([]int, n)
+		for b := a; b < K && okLag; b++ {
+			cnt[picks[b]]++
+			for i := 0; i < n; i++ {
+				for j := i + 1; j < n; j++ {
+					if !hs[i].Health() || !hs[j].Health() {
+						continue
+					}
+					wi, wj := int(hs[i].Weight()), int(hs[j].Weight())
+					d := cnt[i]*wj - cnt[j]*wi
+					if d < 0 {
+						d = -d
+					}
+					if d > wi+wj {
+						okLag = false
+					}
+				}
+			}
+		}
+	}
+	verif.Assert(okLag, "a window of consecutive picks violates the weighted round-robin lag bound between two healthy hosts")
+	if healthy < n {
+		verif.Cover("with-unhealthy-host")
+	}
+	verif.Cover("end")
+}
